@@ -77,6 +77,8 @@ def matches(exp, out):
     """Python twin of Octets!Matches."""
     if isinstance(exp, dict) and "any" in exp:
         return True
+    if isinstance(exp, dict) and "okorrej" in exp:
+        return not (isinstance(out, dict) and "exc" in out) or out["exc"] in exp["okorrej"]
     if isinstance(exp, dict) and "anyof" in exp:
         return any(_match_plain(x, out) for x in exp["anyof"])
     return _match_plain(exp, out)
@@ -90,6 +92,8 @@ def _match_plain(exp, out):
 
 def first_diff(exp, out, path=""):
     """Name the first clause in which expectation and observation differ."""
+    if isinstance(exp, dict) and "okorrej" in exp:
+        return (path + "." if path else "") + "exc.family"
     if isinstance(exp, dict) and "anyof" in exp:
         return (path or "outcome") + ".anyof"
     if isinstance(exp, dict) and "rej" in exp:
